@@ -79,6 +79,10 @@ def generate(tier, wd, seed, fname="table.ndjson"):
               dict(V=6, EMIN=8, EMAX=8, WSET={8, 10, 12}, WD=4, DSET={1, 2}, EXTV=6, NSAMP=12)] if tier == "quick" else
              [dict(V=5, EMIN=5, EMAX=7, WSET={6, 8, 10, 12}, WD=4, DSET={1, 2, 3, 4}, EXTV=5, NSAMP=3000),
               dict(V=6, EMIN=8, EMAX=9, WSET={8, 10, 12}, WD=4, DSET={1, 2, 3}, EXTV=6, NSAMP=150)])
+    # non-dyadic weights on up to 7 labels (subsets with three and more components: float sums whose value depends on
+    # the order of summation) and weights down to 2^-28 (numerical range)
+    rruns.append(dict(V=7, EMIN=5, EMAX=7, WSET={4, 8, 16, 20, 28}, WD=12, DSET={1, 2}, EXTV=7, NSAMP=60 if tier == "quick" else 1500))
+    rruns.append(dict(V=3, EMIN=2, EMAX=3, WSET={1, 134217728, 268435456}, WD=268435456, DSET={1, 2}, EXTV=3, NSAMP=150 if tier == "quick" else 3000))
     for i, c in enumerate(rruns):
         r = core.tlc("Gen_TableRand", core.cfg_text(constants=c, invariants=["Emit"]), "gen_rand_%d" % i, wd, workers=12, timeout=3600,
                      coverage=False, replay_to=path, seed=seed + i)
